@@ -1,4 +1,4 @@
-//! Kani ledger rows for PieceBitboards (assumed by vx/prelude/board_leaf.rs). Child module of board::piece_bitboards.
+//! Kani ledger rows for PieceBitboards (assumed by vx/prelude/pb_view.rs, zkey_model.rs, square_lits.rs). Child module of board::piece_bitboards.
 use super::*;
 use crate::board::bitboard::Bitboard;
 use crate::board::piece::{Color, Kind};
